@@ -10,6 +10,13 @@ package atree
 // first-level collision group of gsize keys (distinct, ascending second-level
 // digests) at position gpos; the group is inline or an external group slab.
 func vhBuildGroupMap(storage SlabStorage, addr Address, b *vDigesterBuilder, nsingle, gsize, gpos int, external bool) (*OrderedMap, []vhKV, []int) {
+	return vhBuildGroupMapDeep(storage, addr, b, nsingle, gsize, gpos, external, false)
+}
+
+// deep: the gsize members share the first AND the second-level digest; they
+// sit in a nested inline group (third-level digests ascending) that is the
+// only entry of the first-level group.
+func vhBuildGroupMapDeep(storage SlabStorage, addr Address, b *vDigesterBuilder, nsingle, gsize, gpos int, external bool, deep bool) (*OrderedMap, []vhKV, []int) {
 	listMode := b.levels == 1 // keys colliding on every level sit in an insertion-ordered list
 	rootID, _ := storage.GenerateSlabID(addr)
 	var kvs []vhKV
@@ -56,6 +63,36 @@ func vhBuildGroupMap(storage SlabStorage, addr Address, b *vDigesterBuilder, nsi
 					les.size += el.size
 				}
 				ges = les
+			} else if deep {
+				inner := newHkeyElements(2)
+				var d1, prevD2 uint64
+				for j := 0; j < gsize; j++ {
+					k := vhNewKey(nextID)
+					k.d[0] = d0
+					if j == 0 {
+						d1 = k.d[1]
+					} else {
+						k.d[1] = d1
+						vhAssume(k.d[2] > prevD2)
+					}
+					prevD2 = k.d[2]
+					vs := vhRange32("vsz", 1, 32768)
+					vhAssume(vs <= maxInlineMapValueSize(k.size))
+					val := vElem{tag: 1000 + nextID, size: vs}
+					el := &singleElement{key: k, value: val, size: singleElementPrefixSize + k.size + vs}
+					kvs = append(kvs, vhKV{key: k, val: val.tag})
+					nextID++
+					groupIdx = append(groupIdx, len(kvs)-1)
+					inner.hkeys = append(inner.hkeys, Digest(k.d[2]))
+					inner.elems = append(inner.elems, el)
+					inner.size += digestSize + el.size
+				}
+				ig := &inlineCollisionGroup{elements: inner}
+				hes := newHkeyElements(1)
+				hes.hkeys = append(hes.hkeys, Digest(d1))
+				hes.elems = append(hes.elems, ig)
+				hes.size += digestSize + ig.Size()
+				ges = hes
 			} else {
 				hes := newHkeyElements(1)
 				for j := 0; j < gsize; j++ {
@@ -126,9 +163,15 @@ func VH_C12_GroupStep() {
 	gsize := 2 + vhChoose("gsize", vhParam("gsize", 2)-1)
 	gpos := vhChoose("gpos", nsingle+1)
 	external := vhChoose("external", 2) == 1
-	m, model, gidx := vhBuildGroupMap(storage, addr, b, nsingle, gsize, gpos, external)
+	deep := b.levels > 1 && vhChoose("deep", 2) == 1
+	m, model, gidx := vhBuildGroupMapDeep(storage, addr, b, nsingle, gsize, gpos, external, deep)
 	rootID := m.SlabID()
 	gd0 := model[gidx[0]].key.d[0]
+	// entries the collision limit counts for the group's first-level digest
+	entries := gsize
+	if deep {
+		entries = 1
+	}
 	op := vhChoose("op", 6)
 	switch op {
 	case 0: // lookup of an absent key that collides with the group at the first level
@@ -137,9 +180,20 @@ func VH_C12_GroupStep() {
 		_, err := m.Get(vhCompare, vhHip, k)
 		vhAssert(vhIsKeyNotFound(err), "absent colliding key: key-not-found")
 	case 1: // insert a new key into the group (any second-level digest)
+		// with ANY collision limit: refused exactly when the first-level digest
+		// is already shared by more than limit entries, and then nothing changes
+		limit := vhRange32("limit", 0, 255)
+		maxCollisionLimitPerDigest = limit
 		k := vhNewKey(9999)
 		k.d[0] = gd0
 		old, err := m.Set(vhCompare, vhHip, k, vElem{tag: 5555, size: vhRange32("newvsz", 1, 300)})
+		if uint32(entries-1) >= limit {
+			vhAssert(err != nil, "insert into group at the limit: refused")
+			vhAssert(vhIsCollisionLimit(err), "insert into group at the limit: collision-limit error")
+			vhCheckMap(m, addr, model, "after refusal")
+			vhReach("group-step-done")
+			return
+		}
 		vhAssert(err == nil, "insert into group: no error")
 		if err != nil {
 			return
